@@ -618,6 +618,8 @@ func checkC13(c *Ctx) {
 	c.Expect("R5", 5)
 	c.Expect("R6", 3)
 	checkReplyWalk(c, "R8")
+	c.Rule("R9", "the compression options are read from the live configuration holder on every request (shared with C08.R9)")
+	checkLiveConfig(c, "R9")
 }
 
 // checkCpsHeader: writer builds magic ‖ alg ‖ CRLF; reader tests/strips the same offsets.
